@@ -58,6 +58,9 @@ func listenScenarios(boundMs int, thorough bool) []Scenario {
 	for i, name := range names {
 		add(SingleCase{Adapter: name, BP: true})
 		add(SingleCase{Adapter: name, BP: false, Pre: i % 3})
+		// an updates-only subscription takes no snapshot and no lock: the writes go through inside its window, it is shown
+		// nothing and, registered after the delete, goes on until it is cancelled
+		add(SingleCase{Adapter: name, BP: i%2 == 0, UO: true, Pre: i % 2})
 		if thorough || name == "pullid" || name == "pull" {
 			for pre := 0; pre <= 2; pre++ {
 				add(SingleCase{Adapter: name, BP: pre%2 == 0, Pre: pre})
@@ -114,7 +117,7 @@ func runListen(sc Scenario, drv *lib.Driver) (out Outcome) {
 
 	ctx, cancel := context.WithCancel(context.Background())
 	defer cancel()
-	opts := []resource.ReadOption{resource.WithBackpressure(c.BP), resource.WithUpdatesOnly(false)}
+	opts := []resource.ReadOption{resource.WithBackpressure(c.BP), resource.WithUpdatesOnly(c.UO)}
 	closed := make(chan struct{})
 	var nRecv atomic.Int64
 	opened := make(chan struct{})
@@ -204,10 +207,14 @@ func runListen(sc Scenario, drv *lib.Driver) (out Outcome) {
 		o.count("single:write-error:listen-window")
 		return
 	}
-	o.eval(monShutdown, "single-item-ends/"+key, true)
+	o.eval(monShutdown, "single-item-ends/"+key, !c.UO)
+	patience := bound
+	if c.UO && through {
+		patience = 30 * time.Millisecond // registered after the delete: expected to stay open
+	}
 	select {
 	case <-closed:
-	case <-time.After(bound):
+	case <-time.After(patience):
 	}
 	isClosed := false
 	select {
@@ -215,16 +222,16 @@ func runListen(sc Scenario, drv *lib.Driver) (out Outcome) {
 		isClosed = true
 	default:
 	}
-	if drv != nil && c.Adapter != "pull" {
+	if drv != nil && c.Adapter != "pull" && inWindow && (through || held >= 2) {
 		b2i := func(b bool) int {
 			if b {
 				return 1
 			}
 			return 0
 		}
-		observed := fmt.Sprintf("closed=%v,n=%d", isClosed, nRecv.Load())
-		ans, err := drv.Ask(fmt.Sprintf("late 1 0 %d %d del %s", b2i(c.BP), c.Pre, observed))
-		t := TieRec{Tie: tieLate, Key: fmt.Sprintf("%s/pre=%d/bp=%v/uo=false", key, c.Pre, c.BP), Nontrivial: true, Code: observed}
+		observed := fmt.Sprintf("through=%v,closed=%v,n=%d", through, isClosed, nRecv.Load())
+		ans, err := drv.Ask(fmt.Sprintf("window 1 %d %d %d %s", b2i(c.UO), b2i(c.BP), c.Pre, observed))
+		t := TieRec{Tie: tieLate, Key: fmt.Sprintf("%s/pre=%d/bp=%v/uo=%v", key, c.Pre, c.BP, c.UO), Nontrivial: true, Code: observed}
 		switch {
 		case err != nil:
 			t.Err = "driver: " + err.Error()
@@ -236,7 +243,8 @@ func runListen(sc Scenario, drv *lib.Driver) (out Outcome) {
 		o.Ties = append(o.Ties, t)
 		o.count("late:del/in-call")
 	}
-	if !isClosed {
+	// the oracle: a subscriber that was shown the item (a seed: not updates-only) and whose item has been deleted since
+	if !isClosed && !c.UO {
 		what := "a single-item subscription is still open although its item was removed: the delete was issued while the subscription was being made (between its snapshot of the item and the registration of its listener) and has returned"
 		if c.Adapter == "pull" {
 			what = "a Collection.Pull subscriber that was shown the item was never handed its REMOVE: the delete was issued while the subscription was being made (between its snapshot and the registration of its listener) and has returned"
